@@ -19,6 +19,8 @@ class C03(ProgProp):
     def fixed_cases(self, ctx):
         for c in super().fixed_cases(ctx):
             yield c
+        for c in self.patch_api_cases(ctx):
+            yield c
         # > 255 constants and names, one statement per line (every operand beyond 255 starts a line with its EXTENDED_ARG)
         many = "".join("v%d = %d\n" % (i, 1000 + i) for i in range(300)) + "def f():\n    return v299, v0\n"
         for v in self.versions:
@@ -29,7 +31,10 @@ class C03(ProgProp):
 
     def judge(self, case, ctx):
         if case.get("k") != "family":
-            return super().judge(case, ctx)
+            res = super().judge(case, ctx)
+            if case.get("k") == "asm" and isinstance(case.get("patch"), int) and not res.reject and not res.failures:
+                self.judge_patch_api(case, ctx, res)
+            return res
         # versions nobody can run any more: the category sets that drive operand resolution, judged through the
         # CPython of the same family (an opcode keeps its name only while it keeps its meaning)
         from vf.props import c09
